@@ -104,8 +104,15 @@ def make_case(tier, seed, index):
             cmd = {"op": "wmulti", "reg": rnd.randrange(65000),
                    "hex": payload_bytes(cl, 2 * rnd.randint(1, 123), rnd.randrange(1 << 16)).hex()}
     else:
-        op = rnd.choice(["aa55", "aa55", "aa55read", "aa55write", "aa55wmulti"])
-        if op == "aa55":
+        op = rnd.choice(["aa55", "aa55", "aa55read", "aa55write", "aa55wmulti", "aa55set"])
+        if op == "aa55set":
+            # AA55 setting commands; the expected response type is a hex string given in either letter case
+            c, n = rnd.choice([("0335", 2), ("0359", 1), ("031d", 0), ("0336", 1), ("032c", 5), ("032d", 5)])
+            t = "%04x" % (int(c, 16) | 0x80)
+            t = rnd.choice([t.lower(), t.upper()])
+            cmd = {"op": "aa55", "payload": c + "%02x" % n + bytes(rnd.getrandbits(8) for _ in range(n)).hex(), "rtype": t,
+                   "blocklen": 1, "setcmd": True}
+        elif op == "aa55":
             p, t = rnd.choice([("010200", "0182"), ("010600", "0186"), ("010900", "0189")])
             cmd = {"op": "aa55", "payload": p, "rtype": t, "blocklen": rnd.randint(0, 255)}
         elif op == "aa55read":
@@ -125,13 +132,17 @@ def make_case(tier, seed, index):
         ndrop = rnd.randint(0, r)
         faults = [{"k": "drop"} for _ in range(ndrop)]
         # fragment reassembly is specified for read responses only (C07)
-        last = rnd.choice(["ok", "delay", "frag", "dup"] if cmd["op"] in ("read", "aa55", "aa55read") else ["ok", "delay", "dup"])
+        last = rnd.choice(["ok", "delay", "frag", "dup", "trunc_whole"] if cmd["op"] in ("read", "aa55", "aa55read") else ["ok", "delay", "dup"])
         if last == "delay":
             faults.append({"k": "ok", "d": rnd.choice([tau / 2, tau - EPS])})
         elif last == "frag":
             faults.append({"k": "frag", "s": -1, "d1": DEFAULT_LATENCY, "d2": rnd.choice([2 * DEFAULT_LATENCY, tau / 2])})
         elif last == "dup":
             faults.append({"k": "dup", "d1": DEFAULT_LATENCY, "d2": rnd.choice([2 * DEFAULT_LATENCY, tau / 2])})
+        elif last == "trunc_whole":
+            # a truncated copy of the answer, then the complete conforming frame (which must be accepted as it is)
+            faults.append({"k": "frag_then", "s": -1, "d1": DEFAULT_LATENCY, "d2": rnd.choice([2 * DEFAULT_LATENCY, tau / 2]),
+                           "what": {"whole": 1}})
     case = {"kind": "random", "framing": fr, "cmd": cmd, "pclass": cl, "pseed": rnd.randrange(1 << 16),
             "comm_addr": rnd.randrange(256), "trailing": trailing, "timeout": tau, "retries": r,
             "keep_alive": rnd.random() < 0.5, "faults": faults}
@@ -172,6 +183,8 @@ def run_case(case):
     if op == "read":
         served = payload_bytes(case["pclass"], 2 * cmd["count"], case["pseed"])
         dev.set_bytes(cmd["reg"], served)
+    elif op == "aa55" and cmd.get("setcmd"):
+        served = b"\x06"
     elif op == "aa55":
         served = payload_bytes(case["pclass"], cmd["blocklen"], case["pseed"])
         dev.blocks[int(cmd["payload"][:4], 16)] = served
@@ -182,7 +195,7 @@ def run_case(case):
     # resolve symbolic split point; append trailing bytes to the RTU answer
     alen = None
     for f in faults:
-        if f["k"] == "frag" and f["s"] == -1:
+        if f["k"] in ("frag", "frag_then") and f["s"] == -1:
             hdr = 9 if fr != "rtu" else 5
             if op in ("read", "aa55read"):
                 alen = (7 if fr == "rtu" else 9) + 2 * cmd["count"]
@@ -217,7 +230,7 @@ def run_case(case):
             state["pre"] = await C.do_execute(world, proto, {"op": "read", "reg": 100, "count": case["pre"]["count"]}, "pre")
             state["tx_pre"] = world.net.n_tx
             world.net.begin_script(faults, default)
-        state["rec"] = await C.do_execute(world, proto, {k: v for k, v in cmd.items() if k != "blocklen"}, "req")
+        state["rec"] = await C.do_execute(world, proto, {k: v for k, v in cmd.items() if k not in ("blocklen", "setcmd")}, "req")
 
     status, _ = C.run_world(world, main())
     net = world.net
